@@ -113,6 +113,7 @@ fn tier_for(prop: &str, tier: &str) -> Tier {
             "C06" => 48,
             "C07" => 24,
             "C05" => 12,
+            "C03" => 4,
             _ => 0,
         };
         if let Some(c) = std::env::var("VERIF_CAP_S").ok().and_then(|s| s.parse::<u64>().ok()) {
@@ -121,7 +122,7 @@ fn tier_for(prop: &str, tier: &str) -> Tier {
         return t;
     }
     if tier == "thorough-valgrind" {
-        let mut t = Tier { runs: 2_000_000, cap_s: 150, variants: if prop == "C05" { 6 } else { 0 } };
+        let mut t = Tier { runs: 2_000_000, cap_s: 150, variants: if prop == "C05" { 6 } else if prop == "C03" { 2 } else { 0 } };
         if let Some(c) = std::env::var("VERIF_CAP_S").ok().and_then(|s| s.parse::<u64>().ok()) {
             t.cap_s = c;
         }
@@ -136,6 +137,8 @@ fn tier_for(prop: &str, tier: &str) -> Tier {
         ("C07", false) => Tier { runs: 2_000_000, cap_s: 420, variants: 40 },
         ("C05", true) => Tier { runs: 120_000, cap_s: 60, variants: 10 },
         ("C05", false) => Tier { runs: 20_000_000, cap_s: 540, variants: 24 },
+        ("C03", true) => Tier { runs: 160_000, cap_s: 45, variants: 3 },
+        ("C03", false) => Tier { runs: 20_000_000, cap_s: 420, variants: 8 },
         (_, true) => Tier { runs: 160_000, cap_s: 45, variants: 0 },
         (_, false) => Tier { runs: 50_000_000, cap_s: 420, variants: 0 },
     };
@@ -229,6 +232,15 @@ fn variants(prop: &str, g: &Generated, base_rep: &RunReport, cap: usize) -> Vec<
             }
             for k in mem.iter().skip(3) {
                 add(F_MEM_FAIL, *k as u32, 0);
+            }
+        }
+        "C03" => {
+            // exactly-once destruction also when a destructor or a clone panics half-way
+            for k in spread(fc.drops, (cap * 2 / 3).max(1)) {
+                add(F_DROP_PANIC, k as u32, 0);
+            }
+            for k in spread(fc.clones, (cap / 3).max(1)) {
+                add(F_CLONE_PANIC, k as u32, 0);
             }
         }
         "C07" => {
